@@ -14,6 +14,10 @@ REGISTRY = {
     "C18": ("harness.checks.curves_check", "C18"),
     "C17": ("harness.checks.assembly_check", "C17"),
     "C01": ("harness.checks.c01_check", "C01"),
+    "C13": ("harness.checks.c13_check", "C13"),
+    "C04": ("harness.checks.pair_checks", "C04"),
+    "C11": ("harness.checks.pair_checks", "C11"),
+    "C12": ("harness.checks.pair_checks", "C12"),
 }
 
 
